@@ -12,6 +12,7 @@ import NodisVerif.Model.Handler3
 import NodisVerif.Proofs.SkiplistFuel
 import NodisVerif.Proofs.SkiplistSpansRun
 import NodisVerif.Proofs.SkiplistZSet
+import NodisVerif.Proofs.SkiplistHeader
 /-
   C04 — sorted sets stay ordered by (score, member); rank, range and score agree.
 
@@ -729,6 +730,25 @@ example : Skiplist.InvSpans slDemo := by
   obtain ⟨sl, hr, hi, _⟩ := Skiplist.run_invSpans_from_empty slDemoOps hok
   rw [skiplist_demo.1] at hr
   exact (Except.ok.inj hr) ▸ hi
+
+/-! ### the header node -/
+
+/-- the header keeps score 0, member "" and backward nil in every reachable state (`IsChain` does not speak about the
+    header's own fields; `getByRank 0`, the phantom member of finding A-41b, and the backward walk of ZREVRANGE read them) -/
+theorem skiplist_header_ok (ops : List Skiplist.SlOp) (sl sl' : SL) (h : Skiplist.Inv sl) (hh : Skiplist.HeaderOk sl)
+    (hok : Skiplist.OpsOk (Skiplist.abs sl) ops) (hr : Skiplist.runM sl ops = .ok sl') : Skiplist.HeaderOk sl' :=
+  Skiplist.run_headerOk ops h hh hok hr
+
+example : Skiplist.HeaderOk slDemo :=
+  Skiplist.run_headerOk_from_empty slDemoOps
+    (by simp only [slDemoOps, Skiplist.OpsOk, Skiplist.OpOk, Skiplist.stepL]; decide) skiplist_demo.1
+
+/-- the item of the node `getByRank` returns is the list-level cursor's, for EVERY rank (0 = the header item (0, "")) -/
+theorem skiplist_getByRank_item (sl : SL) (h : Skiplist.Inv sl) (hh : Skiplist.HeaderOk sl) (r : Int) :
+    ∃ o, Skiplist.getByRank sl r = .ok o ∧
+      o.map (Skiplist.itemAt sl.heap) = (getByRank (Skiplist.abs sl) r).map (·.cur) := by
+  obtain ⟨c, hc⟩ := h
+  exact Skiplist.getByRank_item_all hc hh r
 
 /-! ### the sorted set on top of the pointer structure
 
